@@ -5,6 +5,7 @@ import (
 	"crypto/rand"
 	"fmt"
 	"io"
+	"reflect"
 	"strings"
 	"sync/atomic"
 
@@ -106,6 +107,18 @@ type seqWorld struct {
 	typ string
 	reg *registry
 	ops []seqOp
+	// intact, if set, names a caller-owned object (not a byte slice) that no longer is what the caller left, or ""
+	intact func() string
+}
+
+// sameObject reports whether two interface values hold the very same object (pointer identity for pointers).
+func sameObject(a, b any) (same bool) {
+	defer func() {
+		if recover() != nil {
+			same = reflect.DeepEqual(a, b)
+		}
+	}()
+	return a == b
 }
 
 func (m *c16) runSequence(mk func(r *core.Rand) *seqWorld, idx []int, r *core.Rand) {
@@ -133,6 +146,13 @@ func (m *c16) runSequence(mk func(r *core.Rand) *seqWorld, idx []int, r *core.Ra
 			d["value"], d["before"], d["after"] = name, core.Hex(before), core.Hex(after)
 			c.Violation("sequence:earlier-value-changed:"+w.typ+":"+stripIndex(name), fmt.Sprintf("%s: %q, handed out earlier, changed after %s", w.typ, name, op.name), d)
 			return
+		}
+		if w.intact != nil {
+			if what := w.intact(); what != "" {
+				d["object"] = what
+				c.Violation("sequence:caller-object-changed:"+w.typ, fmt.Sprintf("%s: %s changed after %s", w.typ, what, op.name), d)
+				return
+			}
 		}
 		c.Class("earlier_results_checked")
 	}
@@ -398,8 +418,19 @@ func (m *c16) worlds() []func(r *core.Rand) *seqWorld {
 		s2, err := type2.NewBasicPublicClient().CreateTokenRequest(r.Bytes(9), r.Bytes(32), iss2.TokenKeyID(), iss2.TokenKey())
 		must(err)
 		bad := &type1.BasicPrivateTokenRequest{TokenKeyID: s1.Request().TokenKeyID, BlindedReq: bytes.Repeat([]byte{0xff}, 49)}
-		br, err := batched.NewBasicClient().CreateTokenRequest([]tokens.TokenRequestWithDetails{s1.Request(), bad, s2.Request()})
+		// the caller's own list of requests, kept by the caller after the batch was made from it
+		callerList := []tokens.TokenRequestWithDetails{s1.Request(), bad, s2.Request()}
+		callerSaved := append([]tokens.TokenRequestWithDetails{}, callerList...)
+		br, err := batched.NewBasicClient().CreateTokenRequest(callerList)
 		must(err)
+		w.intact = func() string {
+			for i := range callerList {
+				if !sameObject(callerList[i], callerSaved[i]) {
+					return fmt.Sprintf("slot %d of the request list the caller handed to CreateTokenRequest", i)
+				}
+			}
+			return ""
+		}
 		wire := clone(br.Marshal())
 		w.reg.track("batch request bytes", wire)
 		br2, err := batched.NewBasicClient().CreateTokenRequest([]tokens.TokenRequestWithDetails{s2.Request(), s1.Request()})
@@ -448,6 +479,8 @@ func (m *c16) worlds() []func(r *core.Rand) *seqWorld {
 					}
 				}
 			}},
+			{"client's batch object: Unmarshal(other batch bytes)", func() { br.Unmarshal(wire2) }},
+			{"client's batch object: Marshal()", func() { n++; w.reg.track(fmt.Sprintf("client batch Marshal()#%d", n), br.Marshal()) }},
 			{"Unmarshal(batch bytes) again", func() { dec.Unmarshal(wire) }},
 			{"Unmarshal(other batch bytes)", func() { dec.Unmarshal(wire2) }},
 			{"Unmarshal(empty list)", func() { dec.Unmarshal([]byte{0}) }},
